@@ -35,6 +35,9 @@ namespace randomx {
 
 	template<class Allocator, bool softAes>
 	class InterpretedLightVm : public InterpretedVm<Allocator, softAes> {
+#ifdef RANDOMX_VERIF
+		friend struct randomx_verif::Access;
+#endif
 	public:
 		using VmBase<Allocator, softAes>::mem;
 		using VmBase<Allocator, softAes>::cachePtr;
